@@ -97,7 +97,7 @@ def run_shard(desc):
         for i, s_ in enumerate(bad + good_first):
             for fresh in (False, True):
                 steps = ([{"op": "parse", "text": "1"}] if not fresh else []) + [{"op": "parse", "text": s_}]
-                run = common.run_vexec(steps, wd, "special-%d-%d" % (i, fresh), profile)
+                run = common.run_vexec(steps, wd, "special-%d-%d-%s" % (i, fresh, profile), profile)
                 st = run.steps()
                 if not run.ended or not st:
                     part["inconclusive"].append("special run failed")
